@@ -75,7 +75,36 @@ def run_group(run, group, widths, limit, big=False, wide=()):
     return tables, metas
 
 
+def run_x(run, group, widths, maxvecs):
+    """binding X: TLC executes the extracted leaf netlist of every configuration for ALL input vectors (MC_NetComb);
+    every vector on which the netlist disagrees with the reference is then applied to the real block and judged by
+    Trace_Comb, so a verdict always rests on an observation of the real simulator."""
+    from . import xbind
+    cfgs = library.catalogue(random.Random(run.seed), widths=widths, groups=(group,))
+    bad = xbind.comb(run, cfgs, maxvecs, tag='x_' + group)
+    tabs, metas = [], []
+    for cfg, rec, vs in bad[:200]:
+        with quiet():
+            inst = library.instantiate(cfg)
+            sim = inst['hw'].getSimulator()
+            rows = []
+            for v in vs[:64]:
+                for w, x in zip(inst['ins'], v[0]):
+                    w.put(x)
+                sim.clk(1)
+                rows.append(list(v[0]) + [o.get() for o in inst['outs']])
+        tabs.append({'kind': cfg['kind'], 'c': cfg['c'], 'iw': cfg['iw'], 'ow': cfg['ow'], 'full': 0, 'rows': rows})
+        metas.append(cfg)
+    if tabs:
+        confirmed = judge(run, tabs, metas, 'xconf_' + group)
+        for k, (cfg, rec, vs) in enumerate(bad[:200]):
+            if k + 1 not in confirmed:
+                run.drift_note('%s: extracted netlist executed by the Kernel gives %s for inputs %s, the real simulator agrees with the reference %s'
+                               % (cfg['name'], vs[0][2], vs[0][0], vs[0][1]))
+
+
 def judge(run, tables, metas, tag, chunk=1500):
+    nbad = set()
     for c0 in range(0, len(tables), chunk):
         part = tables[c0:c0 + chunk]
         tf = run.scratch / ('%s_%d.json' % (tag, c0))
@@ -97,6 +126,7 @@ def judge(run, tables, metas, tag, chunk=1500):
                 raise MachineryError('table %s claims to be full but has %d of %d rows' % (cfg['name'], r[2], r[3]))
             elif r[0] == 'V':
                 seen.add(tid)
+                nbad.add(tid)
                 row = t['rows'][r[2] - 1]
                 ni = len(t['iw'])
                 wit = {'block': cfg['name'], 'kind': cfg['kind'], 'params': cfg['c'], 'iw': t['iw'], 'ow': t['ow'],
@@ -112,6 +142,7 @@ def judge(run, tables, metas, tag, chunk=1500):
     run.sample({'block': metas[0]['name'], 'rows(inputs+outputs)': t['rows'][:4]})
     mid = len(tables) // 2
     run.sample({'block': metas[mid]['name'], 'rows(inputs+outputs)': tables[mid]['rows'][:4]})
+    return nbad
 
 
 def param_class(cfg):
